@@ -30,6 +30,21 @@ structure Dec where
   reason : Nat
 deriving Repr, Inhabited
 
+/-- One event of the history the `verif-hooks` feature records (same granularity, same order). -/
+inductive Ev where
+  | var (v : Nat) (o : Origin)
+  | clause (id : Nat) (k : Kind)
+  | cands (id : Nat) (conflict : Bool) (groups : List (List Nat))
+  | learnt (idx : Nat) (lits : List Lit) (why : List Nat)
+  | assign (v : Nat) (val : Bool) (level : Nat) (reason : Nat)
+  | undo (v : Nat)
+  | clear
+  | runsat (root : Option Nat) (start : Nat)
+  | softfail (root : Option Nat) (clause : Nat)
+  | conflicting (clause : Nat)
+  | unsolvable (clause : Nat)
+deriving Repr, Inhabited
+
 /-- why a run stopped abnormally -/
 inductive Stop where
   | cancelled (value : Nat)
@@ -78,18 +93,21 @@ structure S where
   cachedSorted : List Nat := []
   log : List String := []                   -- provider call log, newest first: c<n> d<s> p<k>/P<k>
   polls : Nat := 0
-  cancelAt : Option Nat := none
+  cancelAt : Option Nat := none             -- signal up at this poll number
+  cancelAtCall : Option Nat := none         -- signal goes up when this provider request starts
   cancelTransient : Bool := false
+  callsStarted : Nat := 0
+  raised : Bool := false
   -- Encoder
   queue : List Task := []
   conflicting : List Nat := []              -- oldest first
-  -- hook trace, newest first
-  trace : List String := []
+  -- hook trace (structured), newest first
+  trace : List Ev := []
 deriving Inhabited
 
 abbrev M := ExceptT Stop (StateM S)
 
-def emit (l : String) : M Unit := modify fun s => { s with trace := l :: s.trace }
+def emit (e : Ev) : M Unit := modify fun s => { s with trace := e :: s.trace }
 def panic {α : Type} (site : String) : M α := throw (.panic site)
 
 /-! ### VariableMap -/
@@ -101,7 +119,7 @@ def internSolvable (sv : Nat) : M Nat := do
   | none =>
     let v := s.nextVar
     set { s with nextVar := v + 1, solvVar := (sv, v) :: s.solvVar, origins := (v, .solvable sv) :: s.origins }
-    emit s!"var {v} solvable {sv}"
+    emit (.var v (.solvable sv))
     pure v
 
 def internSoR : SoR → M Nat
@@ -112,7 +130,7 @@ def allocForbidVar (name : Nat) : M Nat := do
   let s ← get
   let v := s.nextVar
   set { s with nextVar := v + 1, origins := (v, .forbid name) :: s.origins }
-  emit s!"var {v} forbid {name}"
+  emit (.var v (.forbid name))
   pure v
 
 def originOf (s : S) (v : Nat) : Option Origin := s.origins.lookup v
@@ -129,7 +147,7 @@ def tryAdd (v : Nat) (val : Bool) (reason : Nat) (level : Nat) : M (Option Bool)
   let s ← get
   match valueOf s v with
   | none =>
-    emit s!"assign {v} {if val then 1 else 0} {level} {reason}"
+    emit (.assign v val level reason)
     modify fun s => { s with amap := (v, (val, level)) :: s.amap, stack := ⟨v, val, reason⟩ :: s.stack }
     pure (some true)
   | some b => if b == val then pure (some false) else pure none
@@ -141,14 +159,14 @@ def undoLast : M (Dec × Nat) := do
   | [] => panic "decision_tracker.rs:undo_last:unwrap#1"
   | d :: rest =>
     set { s with stack := rest, amap := s.amap.filter (fun e => e.1 != d.var), propIdx := rest.length }
-    emit s!"undo {d.var}"
+    emit (.undo d.var)
     match rest with
     | [] => panic "decision_tracker.rs:undo_last:unwrap#2"
     | top :: _ => pure (d, levelOf { s with amap := s.amap.filter (fun e => e.1 != d.var) } top.var)
 
 def undoUntil (level : Nat) : M Unit := do
   if level == 0 then
-    emit "clear"
+    emit .clear
     modify fun s => { s with stack := [], amap := [], propIdx := 0 }
   else
     let s ← get
@@ -195,11 +213,50 @@ def kindStr (id : Nat) : Kind → String
   | .learnt i => s!"clause {id} learnt {i}"
   | .excluded v r => s!"clause {id} excluded {v} {r}"
 
+def rootStr : Option Nat → String
+  | none => "root"
+  | some sv => toString sv
+
+/-- the line the hook prints for an event -/
+def evLine : Ev → String
+  | .var v (.solvable sv) => s!"var {v} solvable {sv}"
+  | .var v (.forbid n) => s!"var {v} forbid {n}"
+  | .var v .root => s!"var {v} root"
+  | .clause id k => kindStr id k
+  | .cands id conflict groups =>
+    s!"cands {id} {if conflict then 1 else 0}" ++ groups.foldl (fun acc g => acc ++ " |" ++ g.foldl (fun a v => a ++ s!" {v}") "") ""
+  | .learnt idx lits why =>
+    s!"learnt {idx} lits" ++ lits.foldl (fun a l => a ++ " " ++ litStr l) "" ++ " why" ++ why.foldl (fun a c => a ++ s!" {c}") ""
+  | .assign v val level reason => s!"assign {v} {if val then 1 else 0} {level} {reason}"
+  | .undo v => s!"undo {v}"
+  | .clear => "clear"
+  | .runsat r start => s!"runsat {rootStr r} {start}"
+  | .softfail r c => s!"softfail {rootStr r} {c}"
+  | .conflicting c => s!"conflicting {c}"
+  | .unsolvable c => s!"unsolvable {c}"
+
+/-- the history as events of the abstract system (`cands` completes the preceding `requires` clause) -/
+def absEvents (evs : List Ev) : List Abs.Event :=
+  (evs.foldl (fun (acc : List Abs.Event) e =>
+    match e with
+    | .var v o => .var v o :: acc
+    | .clause id k => .clause id k [] :: acc
+    | .cands _ _ groups =>
+      (match acc with
+       | .clause id (.requires p r) _ :: rest => .clause id (.requires p r) groups :: rest
+       | _ => .note :: acc)
+    | .learnt idx lits why => .learntLits idx lits why :: acc
+    | .assign v val level reason => .assign v val level reason :: acc
+    | .undo v => .undo v :: acc
+    | .clear => .clear :: acc
+    | .unsolvable c => .unsolvable c :: acc
+    | _ => .note :: acc) []).reverse
+
 /-- `Clauses::alloc` -/
 def allocClause (kind : Kind) (watch : Option (Lit × Lit)) : M Nat := do
   let s ← get
   let id := s.clauses.size
-  emit (kindStr id kind)
+  emit (.clause id kind)
   modify fun s => { s with clauses := s.clauses.push ⟨kind, watch⟩ }
   pure id
 
@@ -231,15 +288,24 @@ def clauseLits (s : S) (c : MClause) : List Lit :=
 
 /-! ### SolverCache (sync) -/
 
+/-- the cancellation signal is up at the next poll of state `s` -/
+def fires (s : S) : Bool :=
+  (match s.cancelAt with
+   | some at_ => if s.cancelTransient then s.polls == at_ else s.polls ≥ at_
+   | none => false) || s.raised
+
 /-- `should_cancel_with_value` as seen by the solver: poll number k fires according to the plan -/
-def pollCancel : M Unit := do
-  let s ← get
-  let k := s.polls
-  let fire := match s.cancelAt with
-    | some at_ => if s.cancelTransient then k == at_ else k ≥ at_
-    | none => false
-  set { s with polls := k + 1, log := (if fire then s!"P{k}" else s!"p{k}") :: s.log }
-  if fire then throw (.cancelled (7000 + k))
+def pollCancel : M Unit := fun s =>
+  if fires s then (.error (.cancelled (7000 + s.polls)), { s with polls := s.polls + 1, log := s!"P{s.polls}" :: s.log })
+  else (.ok (), { s with polls := s.polls + 1, log := s!"p{s.polls}" :: s.log })
+
+/-- a provider request starts: the call-indexed cancellation plan may raise / withdraw the signal -/
+def requestStarted : M Unit := modify fun s =>
+  let n := s.callsStarted
+  let raised := match s.cancelAtCall with
+    | some j => if n == j then true else if s.cancelTransient && n > j then false else s.raised
+    | none => s.raised
+  { s with callsStarted := n + 1, raised := raised }
 
 def getCandidates (U : Universe) (n : Nat) : M Pkg := do
   let s ← get
@@ -247,6 +313,7 @@ def getCandidates (U : Universe) (n : Nat) : M Pkg := do
     pollCancel
     let p := (U.pkg? n).getD { cands := [] }
     modify fun s => { s with fetchedCands := n :: s.fetchedCands, hinted := s.hinted ++ hintedBy p, log := s!"c{n}" :: s.log }
+    requestStarted
   pure ((U.pkg? n).getD { cands := [] })
 
 def getMatching (U : Universe) (vs : Nat) : M (List Nat) := do
@@ -269,6 +336,7 @@ def getDeps (U : Universe) (sv : Nat) : M Deps := do
   if !s.fetchedDeps.contains sv then
     pollCancel
     modify fun s => { s with fetchedDeps := sv :: s.fetchedDeps, log := s!"d{sv}" :: s.log }
+    requestStarted
   pure (U.deps sv)
 
 def depsAvailable (s : S) (sv : Nat) : Bool := s.fetchedDeps.contains sv || s.hinted.contains sv
